@@ -16,7 +16,7 @@ import (
 
 func runStop(k int) {
 	id := fmt.Sprintf("N/%d", k)
-	if !hk.Want(id) {
+	if !hk.Want(id) || breakerOpen() {
 		return
 	}
 	rng := hk.Rng("c05", id)
@@ -121,13 +121,14 @@ func runStop(k int) {
 		if r.incon != "" {
 			break
 		}
-		ok := hk.WaitUntil(20*time.Second, func() bool {
+		ok := hk.WaitUntil(watchdog(), func() bool {
 			return v.inst.TermCount.Load() >= 1 && !v.inst.InCallback() && hk.LiveRunners(v.pid) == 0
 		})
 		if !ok {
 			if v.inst.TermCount.Load() == 0 && hk.LiveRunners(v.pid) == 0 && !v.inst.InCallback() {
 				// Stop() returned: every process has been unregistered; nothing of this one runs
 				r.fail("terminate-callback-missing", "%s (%s): node Stop returned, no runner goroutine is alive, yet the terminate callback never ran", v.label, v.pid)
+				stuckViolations.Add(1)
 			} else {
 				r.incon = "watchdog: victim still running after node Stop"
 			}
